@@ -103,6 +103,7 @@ def run(ctx):
     from .c03 import _layout_predicate
 
     _layout_predicate(r, p, "C01.wholesale")  # several table reasons above rest on it
+    _bound_extensions(r, p)
     if n_whole < 15:
         raise AnalysisError("only %d whole-region replacement sites found" % n_whole)
 
@@ -243,6 +244,68 @@ def run(ctx):
     return r
 
 
+def _bound_extensions(r, p):
+    """Region extractors that widen a bound by a constant (`lEnd[i] += 1` while iterating lEnd) add one more position to a
+    region that a fix may then delete wholesale (label removal uses include_trailing_whitespace).  The added position must
+    be the one that was tested, and tested to hold a layout class: `v + 1 in <index of a layout class>` or
+    is_token_at_index(<layout class>, v + 1) - otherwise the region swallows the code token behind it."""
+    from ..flow import Facts as _Facts
+
+    layout = ("parser.whitespace", "parser.carriage_return", "parser.blank_line")
+    n_sites = 0
+    for fi in sorted(p.functions.values(), key=lambda f: f.key):
+        if not fi.module.name.startswith("vsg.vhdlFile.extract"):
+            continue
+        facts = None
+        single = {}
+        for n in walk_function(fi.node):
+            if isinstance(n, ast.Assign) and len(n.targets) == 1 and isinstance(n.targets[0], ast.Name):
+                single.setdefault(n.targets[0].id, []).append(n.value)
+        for n in walk_function(fi.node):
+            if not (isinstance(n, ast.AugAssign) and isinstance(n.op, ast.Add) and isinstance(n.target, ast.Subscript) and isinstance(n.value, ast.Constant) and isinstance(n.value.value, int) and n.value.value > 0):
+                continue
+            lst = norm(n.target.value)
+            loops = [q for q in _parents_of(n, fi.node) if isinstance(q, ast.For) and isinstance(q.iter, ast.Call) and norm(q.iter.func) == "enumerate" and q.iter.args and norm(q.iter.args[0]) == lst and isinstance(q.target, ast.Tuple) and norm(q.target.elts[0]) == norm(n.target.slice)]
+            if not loops:
+                continue
+            n_sites += 1
+            v = norm(loops[0].target.elts[1])
+            k = n.value.value
+            want = "%s + %d" % (v, k)
+            if facts is None:
+                facts = _Facts(fi.node)
+            ok = False
+            for t, pol in facts.conds_at(n):
+                if not pol:
+                    continue
+                tt = t.replace(" ", "")
+                m1 = tt.startswith(want.replace(" ", "") + "in")
+                if m1:
+                    name = tt[len(want.replace(" ", "") + "in") :]
+                    src = single.get(name, [])
+                    if len(src) == 1 and isinstance(src[0], ast.Call) and norm(src[0].func).endswith("get_token_indexes") and src[0].args and norm(src[0].args[0]) in layout:
+                        ok = True
+                for lc in layout:
+                    if tt == ("oTokenMap.is_token_at_index(%s,%s)" % (lc, want)).replace(" ", ""):
+                        ok = True
+            kk = "%s:%s" % (fi.key, norm(n))
+            if ok:
+                r.ok("C01.wholesale", kk, "the bound grows by %d only when position %s was found in the index of a layout class" % (k, want))
+            else:
+                r.fail("C01.wholesale", kk, "%s widens a region bound by %d without a test that position `%s` holds a layout token: the region then covers the code token behind it, and the label-removal rules delete their whole region" % (fi.key, k, want), fi.loc(n))
+    if n_sites < 1:
+        raise AnalysisError("no bound extension found in the extractors (get_tokens_bounded_by include_trailing_whitespace expected)")
+
+
+def _parents_of(n, stop):
+    out = []
+    q = getattr(n, "_parent", None)
+    while q is not None and q is not stop:
+        out.append(q)
+        q = getattr(q, "_parent", None)
+    return out
+
+
 def _vt_name(e):
     v = strip(e.attrs.get("value_token", UNKNOWN))
     return v.ci.key if isinstance(v, ClassRef) else "?"
@@ -272,6 +335,10 @@ def _paren_pair(code, x):
 
 
 VARIANTS = [
+    Variant("C01", "trailing-whitespace extension tests `any later whitespace` instead of the next position", "fire",
+            [("vsg/vhdlFile/extract/get_tokens_bounded_by.py", "            if iIndex + 1 in lWhiteSpace:", "            if oTokenMap.get_index_of_token_after_index(parser.whitespace, iIndex) is not None:")], rule="C01.wholesale"),
+    Variant("C01", "twin: trailing-whitespace extension asks the token map about the next position", "silent",
+            [("vsg/vhdlFile/extract/get_tokens_bounded_by.py", "            if iIndex + 1 in lWhiteSpace:", "            if oTokenMap.is_token_at_index(parser.whitespace, iIndex + 1):")]),
     Variant("C01", "optional-item removal keeps the previous token only if it is a carriage return", "fire",
             [("vsg/rules/utils.py", "    if isinstance(lTokens[0], parser.whitespace):\n        oViolation.set_tokens([])\n    else:\n        oViolation.set_tokens([lTokens[0]])", "    if isinstance(lTokens[0], parser.carriage_return):\n        oViolation.set_tokens([lTokens[0]])\n    else:\n        oViolation.set_tokens([])")], rule="C01.wholesale"),
     Variant("C01", "a new fix empties its region", "fire",
